@@ -112,7 +112,8 @@ Data<T> make_data(vf::Rng& r, int family, int nmax, bool hostile = false)
         {
             // shift outside or inside the spectrum at a moderate distance
             Eigen::SelfAdjointEigenSolver<Eigen::MatrixXd> ref(d.A.template cast<double>());
-            const double lo = ref.eigenvalues()[0], hi = ref.eigenvalues()[d.n - 1], spread = std::max(hi - lo, 1e-300 + std::abs(hi) * 1e-3);
+            // (floor: a multiple of the identity or the zero matrix has no spread; the shift must still sit at a sensible distance)
+            const double lo = ref.eigenvalues()[0], hi = ref.eigenvalues()[d.n - 1], spread = std::max(hi - lo, 1e-3 * std::max(std::max(std::abs(hi), std::abs(lo)), d.scale));
             const int j = (int) r.range(0, d.n - 1);
             double s = ref.eigenvalues()[j] + (r.coin() ? 1 : -1) * spread * (r.coin() ? 0.1 : 0.03);
             if (r.coin(0.3)) s = lo - spread * r.uni(0.05, 0.5);
@@ -142,7 +143,7 @@ Data<T> make_data(vf::Rng& r, int family, int nmax, bool hostile = false)
             {
                 // generalized shift: place sigma relative to the generalized spectrum
                 Eigen::GeneralizedSelfAdjointEigenSolver<Eigen::MatrixXd> ref(d.A.template cast<double>(), d.B.template cast<double>(), Eigen::EigenvaluesOnly);
-                const double lo = ref.eigenvalues()[0], hi = ref.eigenvalues()[d.n - 1], spread = std::max(hi - lo, 1e-300);
+                const double lo = ref.eigenvalues()[0], hi = ref.eigenvalues()[d.n - 1], spread = std::max(hi - lo, 1e-3 * std::max(std::max(std::abs(hi), std::abs(lo)), d.scale));
                 const int j = (int) r.range(0, d.n - 1);
                 double s = ref.eigenvalues()[j] + (r.coin() ? 1 : -1) * spread * (r.coin() ? 0.1 : 0.03);
                 if (std::abs(s) < 1e-3 * spread) s = 0.05 * spread;   // Cayley needs sigma != 0
